@@ -29,10 +29,23 @@ def run(c: Check):
                            env={"VERIF_NSTRESS": 60 if th else 10})
     ev2 = read_ndjson(out2)
     fails += c.validate_segments("TraceBillStat", "TraceBillStat.cfg", ev2, is_reset=lambda e: True)
+    # the real gRPC uploader behind the recorder, against an in-process backend
+    out3, _ = c.go_harness("internal/backendpb", "^TestVerifC16Uploader$", files=["c16b_test.go"],
+                           env={"VERIF_NHIST": 400 if th else 40})
+    ev3 = read_ndjson(out3)
+    for e in ev3:
+        if e.get("delivMeta") is None:
+            e.pop("delivMeta", None)
+    fails += c.validate_segments("TraceBillStat", "TraceBillStat1.cfg", ev3)
+    nrej = sum(1 for e in ev3 if e["ev"] == "UploadFail")
+    modes = set(e.get("mode") for e in ev3 if e["ev"] == "UploadFail")
+    if not {"open", "mid", "final"} <= modes:
+        from vlib import Undecided
+        raise Undecided("uploader harness: rejection modes seen %s" % modes)
     for e in ev + ev1:
         if e["ev"] != "Reset":
             c.cov["evaluations"] += 1
-    for tr in (ev, ev1):
+    for tr in (ev, ev1, ev3):
         seg = []
         for e in tr:
             if e["ev"] == "Reset":
